@@ -76,13 +76,62 @@ class UnboundQlassf:
 
         new_body = []
 
+        def qint_size(ann):
+            """n if the annotation is Qint[n] / Qintn"""
+            if (
+                isinstance(ann, ast.Subscript)
+                and isinstance(ann.value, ast.Name)
+                and ann.value.id == "Qint"
+                and isinstance(ann.slice, ast.Constant)
+            ):
+                return ann.slice.value
+            if isinstance(ann, ast.Name) and ann.id[:4] == "Qint" and ann.id[4:].isdigit():
+                return int(ann.id[4:])
+            return None
+
+        def elements_ann(ann, n):
+            """The annotations of the n elements of a Tuple / Qlist / Qmatrix value"""
+            if isinstance(ann, ast.Subscript) and isinstance(ann.value, ast.Name):
+                sl = ann.slice.elts if isinstance(ann.slice, ast.Tuple) else [ann.slice]
+                if ann.value.id == "Tuple" and len(sl) == n:
+                    return list(sl)
+                if ann.value.id in ["Qlist", "List"]:
+                    return [sl[0]] * n
+                if ann.value.id == "Qmatrix" and len(sl) == 3:
+                    row = ast.Subscript(
+                        value=ast.Name(id="Qlist", ctx=ast.Load()),
+                        slice=ast.Tuple(elts=[sl[0], sl[2]], ctx=ast.Load()),
+                        ctx=ast.Load(),
+                    )
+                    return [row] * n
+            return [None] * n
+
         for k, w in kwargs.items():
 
-            def to_val(w):
+            def to_val(w, ann=None):
                 if hasattr(w, "__iter__") and not isinstance(w, (str, bytes)):
-                    return ast.Tuple(ctx=ast.Load(), elts=list(map(to_val, w)))
-                else:
-                    return ast.Constant(value=w)
+                    w = list(w)
+                    return ast.Tuple(
+                        ctx=ast.Load(),
+                        elts=[to_val(x, a) for x, a in zip(w, elements_ann(ann, len(w)))],
+                    )
+
+                # An integer keeps the width its parameter declares (a bare constant would
+                # get the smallest type that holds it, and c + 1 would wrap there)
+                size = qint_size(ann)
+                if (
+                    size is not None
+                    and type(w) is int
+                    and 0 <= w < 2**size
+                    and f"Qint{size}" in globals()
+                    and const_to_qtype(w)[0].BIT_SIZE < size
+                ):
+                    return ast.Call(
+                        func=ast.Name(id=f"Qint{size}", ctx=ast.Load()),
+                        args=[ast.Constant(value=w)],
+                        keywords=[],
+                    )
+                return ast.Constant(value=w)
 
             if k not in self.parameters:
                 raise Exception(f"Unknown parameter {k}")
@@ -90,7 +139,7 @@ class UnboundQlassf:
             new_body.append(
                 ast.Assign(
                     targets=[ast.Name(id=k, ctx=ast.Store())],
-                    value=to_val(w),
+                    value=to_val(w, self.parameters[k]),
                 )
             )
 
